@@ -1,4 +1,5 @@
 import EudoxiaModel.Proofs.Lift
+import EudoxiaModel.Proofs.WorldDeadSusp
 /-! # C10 — suspension only between operators, lasts RAM/20 s, returns work intact -/
 namespace Eudoxia.C10
 open Eudoxia OpState Extracted
@@ -135,5 +136,22 @@ theorem results_come_from_running_containers (p : Pool) : ∀ r ∈ (collect p).
 example : suspendTicks 3 {} { cid := 0, ops := [], cpu := 1, ram := 60, pos := { ops := [] }, suspLeft := 3 } =
     .ok ({}, { cid := 0, ops := [], cpu := 1, ram := 60, pos := { ops := [] }, suspLeft := 0 }) := by
   simp [suspendTicks, Ctr.suspendTick, Ctr.unfinished, Store.transAll]
+
+/-- **C10 over a whole executor tick — the work comes back intact.**  In any world reached by ticks from one whose containers have their record straight
+(`World.FinS`: e.g. a world without containers, and the property is handed on from tick to tick), after a tick with any admissible commands every container
+that is in a suspended list is one that was there before, or one whose write-out ended in this tick — and of those, the operators it had got through are
+COMPLETED and the *whole* rest is PENDING again, none of it touched by anything else that happened in the tick (other pools, OOM kills, new containers). -/
+theorem write_out_end_returns_the_unfinished_operators (w0 w1 : World) (asgs : List Asg) (sus : List (Nat × Nat)) (hr : WorldReady w0) (hb : Built w0 asgs w1)
+    (hseg : ∀ a ∈ asgs, ∀ r ∈ a.ops, w0.store.segsOf r ≠ []) (hpar : ∀ a ∈ asgs, ParentsOK w1.store a.ops)
+    (hsus : ∀ i, ((sus.filter (·.1 == i)).map (·.2)).Nodup) (hf : w0.FinS)
+    {w2 : World} {res : List Res} (hx : w1.execTick sus asgs = .ok (w2, res)) :
+    w2.FinS ∧ ∀ p ∈ w2.pools, ∀ c ∈ p.suspended, (∃ q ∈ w1.pools, c ∈ q.suspended) ∨
+      (c.completed = false ∧ (∀ o ∈ c.ops.take c.curOpIdx, w2.store.stOf o = completed) ∧ ∀ o ∈ c.unfinished, w2.store.stOf o = pending) := by
+  obtain ⟨f2, cs, js, _, _, hj, _, _, hsd, _⟩ := execTick_finS w0 w1 asgs sus hr hb hseg hpar hsus hf hx
+  refine ⟨f2, fun p hp c hc => ?_⟩
+  rcases hsd p hp c hc with h | h
+  · exact Or.inl h
+  · obtain ⟨x1, x2, x3, _⟩ := hj c h
+    exact Or.inr ⟨x2, x1.pre, x3⟩
 
 end Eudoxia.C10
